@@ -675,36 +675,67 @@ def _solve_one(job):
 
 
 MAX_FULL_PER_CLAUSE = 4
+MAX_RETRY_PER_ROUND = 3
+
+
+def _clause_key(ob):
+    return (ob.kind, ob.extra.get("clause") or ob.note, ob.extra.get("case"))
 
 
 def solve_all(obligations, budget=10, workers=16, tmpdir=None, portfolio=None):
-    """Two phases: every obligation against the cheap ladder; what is left gets the full ladder, but at
-    most MAX_FULL_PER_CLAUSE obligations per (kind, clause) -- the rest stay undecided (never a verdict)."""
+    """Three phases.  1: every obligation against the cheap ladder.  2: what is left gets the full ladder, in rounds of at most MAX_FULL_PER_CLAUSE
+    obligations per (kind, clause, case); the next round of a clause runs only while every obligation of its earlier rounds was discharged.  A clause that
+    is merely slow (the unchanged tree on a busy machine) is therefore always worked off completely, while a clause that no longer holds costs one round:
+    once one of its obligations stays undecided or is refuted the outcome "not all discharged" is settled and the remaining paths are left undecided
+    (never a verdict).  3: obligations that only ran out of time get one more try with five times the budget, in rounds of MAX_RETRY_PER_ROUND under
+    the same rule.  Solver budgets are CPU time (smt.run_solver_file), so none of this depends on how busy the cores are."""
     st1 = _solve_phase(obligations, budget, workers, tmpdir, CHEAP_LADDER)
+    wall = st1["solve_wall_s"]
+    queries = st1["queries"]
     left = [ob for ob in obligations if ob.status == "undecided" and ob.extra.get("solver_runs") is not None]
-    per = {}
-    todo = []
+    pending = {}
     for ob in left:
-        k = (ob.kind, ob.extra.get("clause") or ob.note, ob.extra.get("case"))
-        per[k] = per.get(k, 0) + 1
-        if per[k] <= MAX_FULL_PER_CLAUSE and ob.kind not in ("canary",):
+        if ob.kind == "canary":
+            continue
+        pending.setdefault(_clause_key(ob), []).append(ob)
+    todo = []
+    while pending:
+        batch = []
+        for k in list(pending):
+            batch.extend(pending[k][:MAX_FULL_PER_CLAUSE])
+            pending[k] = pending[k][MAX_FULL_PER_CLAUSE:]
+        for ob in batch:
             ob.extra["phase1_runs"] = ob.extra.get("solver_runs")
             ob.status, ob.reason = None, None
-            todo.append(ob)
-        else:
-            ob.reason = (ob.reason or "") + " [full ladder skipped: clause already undecided on %d paths]" % MAX_FULL_PER_CLAUSE
-    st2 = _solve_phase(todo, budget, workers, tmpdir, portfolio or LADDER) if todo else {"solve_wall_s": 0, "queries": 0}
-    # phase 3: a handful of obligations that only ran out of (wall-clock) time get one more try with five times the budget - on a loaded machine a query that
-    # takes a second can miss a 10 s limit; a verdict must not depend on how busy the cores are
+        st2 = _solve_phase(batch, budget, workers, tmpdir, portfolio or LADDER)
+        wall += st2["solve_wall_s"]
+        queries += st2["queries"]
+        todo.extend(batch)
+        stuck = {_clause_key(ob) for ob in batch if ob.status != "discharged"}
+        for k in list(pending):
+            if not pending[k]:
+                del pending[k]
+            elif k in stuck:
+                for ob in pending[k]:
+                    ob.reason = "[full ladder skipped: the clause is already undecided or refuted on another path of this case] " + (ob.reason or "")
+                del pending[k]
+    # phase 3: obligations that only ran out of time get one more try with five times the budget
     late = [ob for ob in todo if ob.status == "undecided" and ob.kind not in ("canary", "cover", "abort")]  # (a cover query asks for a model: "unknown" there is not a matter of time)
-    st3 = {"solve_wall_s": 0, "queries": 0}
-    if 0 < len(late) <= 3:
-        for ob in late:
+    n3 = 0
+    while late:
+        batch, late = late[:MAX_RETRY_PER_ROUND], late[MAX_RETRY_PER_ROUND:]
+        for ob in batch:
             ob.extra["phase2_runs"] = ob.extra.get("solver_runs")
             ob.status, ob.reason = None, None
-        st3 = _solve_phase(late, min(budget * 5, 60), workers, tmpdir, RETRY_LADDER)
-    return {"solve_wall_s": round(st1["solve_wall_s"] + st2["solve_wall_s"] + st3["solve_wall_s"], 2), "queries": st1["queries"] + st2["queries"] + st3["queries"],
-            "phase2_obligations": len(todo), "phase3_obligations": len(late) if 0 < len(late) <= 3 else 0}
+        st3 = _solve_phase(batch, min(budget * 5, 60), workers, tmpdir, RETRY_LADDER)
+        wall += st3["solve_wall_s"]
+        queries += st3["queries"]
+        n3 += len(batch)
+        if any(ob.status != "discharged" for ob in batch):
+            for ob in late:
+                ob.reason = "[retry skipped: another obligation of this case stayed undecided after the retry] " + (ob.reason or "")
+            break
+    return {"solve_wall_s": round(wall, 2), "queries": queries, "phase2_obligations": len(todo), "phase3_obligations": n3}
 
 
 def _solve_phase(obligations, budget, workers, tmpdir, portfolio):
